@@ -179,15 +179,33 @@ def _expected_canon(spec):
     return c
 
 
+PYDANTIC_MODES = ("kw", "parse_obj", "parse_json", "parse_yaml")  # plain parsing, no metador conversion
+
+
+class Unbuildable(Exception):
+    """A (library-conversion) construction mode failed for a legal spec; carries the finding."""
+
+
 def _operands(F, cid, specs, modes):
     """Fresh operands + their snapshots; construction findings."""
     ops, snaps, finds = [], [], []
     for i, (s, m) in enumerate(zip(specs, modes)):
-        o = M.build(F, cid, m, s)
+        try:
+            o = M.build(F, cid, m, s)
+        except Exception as e:  # noqa: BLE001
+            if m in PYDANTIC_MODES:
+                raise  # the corpus / harness is wrong, not the code under test
+            raise Unbuildable(
+                _finding(
+                    "construction-keeps-values",
+                    (_overlap_kind(cid, (s,)), "value", "error:" + type(e).__name__),
+                    f"operand {i}: obtaining {s} by {m} raised {type(e).__name__}: {str(e)[:160]!r}",
+                )
+            )
         sn = M.snapshot(o)
         exp = _expected_canon(s)
         if sn[0] != exp:
-            if m in ("kw", "parse_obj", "parse_json", "parse_yaml"):
+            if m in PYDANTIC_MODES:
                 # plain pydantic parsing does not give back what was put in: the corpus is wrong
                 raise RuntimeError(f"C14 harness: {F}/{cid} {m} of {s} gives {sn[0]}, expected {exp}")
             d = M.first_diff(M.plain(s), M.observe(o))
@@ -413,6 +431,13 @@ def check_harvest(F, cid, specs, variant, stats=None):
 
 
 def run_case(case):
+    try:
+        return _run_case(case)
+    except Unbuildable as u:
+        return [u.args[0]]
+
+
+def _run_case(case):
     F, cid, specs, modes, ow = case["factory"], case["cls"], case["specs"], case["modes"], bool(case.get("ow"))
     k = case["kind"]
     if k == "pair":
@@ -473,6 +498,14 @@ class _Acc:
         self.found = {}
         self.t0 = time.process_time()
 
+    def run(self, case_args, fn, *a):
+        """Evaluate one case through check function `fn` and record its findings."""
+        try:
+            finds = fn(*a, self.stats)
+        except Unbuildable as u:
+            finds = [u.args[0]]
+        self.add(case_args, finds)
+
     def add(self, case_args, finds):
         self.stats["cases"] += 1
         for f in finds:
@@ -497,7 +530,7 @@ def work_single(item):
     acc = _Acc()
     for m in M.modes_for(F):
         if M.applicable(m, F, cid, sp[xi]):
-            acc.add(("single", F, cid, (sp[xi],), (m,), False), check_single(F, cid, sp[xi], m, acc.stats))
+            acc.run(("single", F, cid, (sp[xi],), (m,), False), check_single, F, cid, sp[xi], m)
     return acc.result()
 
 
@@ -514,7 +547,7 @@ def work_pairs(item):
         for mx in mxs:
             for my in mys:
                 for ow in (False, True):
-                    acc.add(("pair", F, cid, (sx, sy), (mx, my), ow), check_pair(F, cid, sx, sy, mx, my, ow, acc.stats))
+                    acc.run(("pair", F, cid, (sx, sy), (mx, my), ow), check_pair, F, cid, sx, sy, mx, my, ow)
     return acc.result()
 
 
@@ -550,10 +583,7 @@ def work_triples(item):
             did = False
             for mx, my, mz in itertools.product(mxs, mys, mzs):
                 for ow in (False, True):
-                    acc.add(
-                        ("triple", F, cid, (sx, sy, sz), (mx, my, mz), ow),
-                        check_triple(F, cid, sx, sy, sz, mx, my, mz, ow, acc.stats),
-                    )
+                    acc.run(("triple", F, cid, (sx, sy, sz), (mx, my, mz), ow), check_triple, F, cid, sx, sy, sz, mx, my, mz, ow)
                     did = True
             if did and _nontrivial(sx, sy, sz):
                 bitmap |= 1 << (idx[yi] * n_ref + idx[zi])
@@ -570,7 +600,7 @@ def work_harvest(item):
     for sy in sp:
         for sz in sp:
             for v in HARVEST_VARIANTS:
-                acc.add(("harvest", F, cid, (sx, sy, sz), (v,), False), check_harvest(F, cid, (sx, sy, sz), v, acc.stats))
+                acc.run(("harvest", F, cid, (sx, sy, sz), (v,), False), check_harvest, F, cid, (sx, sy, sz), v)
     return acc.result()
 
 
@@ -628,9 +658,18 @@ def _value_reductions(v):
 
 
 def _still(case, law, err):
+    """The finding of the same kind if the (candidate) case still shows it, else None.
+
+    Candidates invented by the minimiser may be illegal for a class (e.g. a nested value without its
+    mandatory field): a candidate that cannot even be built is simply rejected.
+    """
     if not case_applicable(case):
         return None
-    for f in run_case(case):
+    try:
+        finds = run_case(case)
+    except Exception:  # noqa: BLE001
+        return None
+    for f in finds:
         if f["law"] == law and f["observed"].startswith("error") == err:
             return f
     return None
